@@ -160,6 +160,7 @@ def main(argv=None):
     if violations:
         os.makedirs(rdir, exist_ok=True)
     seen_paths = set()
+    shown = {}
     for case, r, v in violations:
         path = os.path.join(rdir, f"{case.get('id')}.json")
         if path not in seen_paths:
@@ -167,7 +168,11 @@ def main(argv=None):
             with open(path, "w") as fh:
                 json.dump({"property": pid, "seed": seed, "tier": args.tier, "case": case,
                            "violations": r.get("violations"), "extra": r.get("replay_extra")}, fh, indent=1)
-        print(f"VIOLATION property={pid} replay={path} clause={v.get('clause')} :: {str(v.get('detail'))[:400]}")
+        shown[path] = shown.get(path, 0) + 1
+        if shown[path] <= 3:
+            print(f"VIOLATION property={pid} replay={path} clause={v.get('clause')} :: {str(v.get('detail'))[:400]}")
+        elif shown[path] == 4:
+            print(f"  (further violations of case {case.get('id')} are in the replay file)")
         rc = 1
     for kid, (k, n) in sorted(known_hits.items()):
         print(f"KNOWN-FINDING: property={pid} {k['what']} (id={kid}, seen {n}x this run)")
